@@ -34,7 +34,7 @@ def dry_processMessageG (env : PEnv) (orc : EvalOracles) (ev : Env → Msg → M
       | some ms =>
         let eenv : Env := {
           rx := orc.rx, command := fun _ => -1, isDir := fun _ => false, now := env.now,
-          strptime := orc.strptime, zoneName := orc.zoneName, fileTime := fun _ => none,
+          strptime := orc.strptime, zoneName := orc.zoneName, fileTime := fun _ => none, timeFormat := orc.timeFormat,
           dryrun := env.dryrun, path := ms.path }
         let free (ms : MsgSt) : Prog Unit :=
           match ms.fd with
@@ -62,8 +62,8 @@ theorem dry_processMessage_eqG (env : PEnv) (orc : EvalOracles) (expr : Expr) (h
       dry_processMessageG env orc (fun eenv m fl => eval eenv m expr 0 m { ml := [], flags := fl }) := by
   funext md name st
   have he : ∀ (p : Bytes) (m : Msg) (fl : MFlags),
-      evalP (msgEnv env orc p) orc.timeFormat expr m fl = .ret (eval (msgEnv env orc p) m expr 0 m { ml := [], flags := fl }) :=
-    fun p m fl => evalP_asksFree (msgEnv env orc p) orc.timeFormat expr hfree m fl
+      evalP (msgEnv env orc p) expr m fl = .ret (eval (msgEnv env orc p) m expr 0 m { ml := [], flags := fl }) :=
+    fun p m fl => evalP_asksFree (msgEnv env orc p) expr hfree m fl
   unfold processMessage dry_processMessageG
   cases md.dirH with
   | none => rfl
@@ -82,7 +82,7 @@ theorem dry_processMessage_eqG (env : PEnv) (orc : EvalOracles) (expr : Expr) (h
         dsimp only
         have := he ms.path ms.msg ms.flags
         unfold msgEnv at this
-        show (evalP _ _ _ _ _).bind _ = _
+        show (evalP _ _ _ _).bind _ = _
         rw [this]
         rfl
 
